@@ -1,0 +1,32 @@
+//go:build verif
+
+package indexed
+
+// Contracts for gocv (contract-based deductive verification, /verif).
+
+// The decoder is a dependency (CBOR, reflection): its result is an uninterpreted
+// function of the byte segment it is given; it may write anything reachable from v.
+//@ ghost func decodeResult(b []byte) error
+//@
+//@ extern func github.com/NethermindEth/juno/encoder.Unmarshal
+//@   modifies *
+//@   ensures result == decodeResult(b)
+
+// Well-formed index vector: offsets into data, non-decreasing.
+//@ pure func wfIndex(ix []int, data []byte) bool = (forall j int :: 0 <= j && j < len(ix) ==> 0 <= ix[j] && ix[j] <= len(data)) && (forall j int, k int :: 0 <= j && j <= k && k < len(ix) ==> ix[j] <= ix[k])
+
+//@ func (LazySlice).getInto
+//@   props C07
+//@   arith int
+//@   requires wf: wfIndex(l.indexes, l.data)
+//@   requires inrange: 0 <= index && index < len(l.indexes)
+//@   modifies *
+//@   ensures inner: index < len(l.indexes)-1 ==> result == decodeResult(l.data[old(l.indexes[index]) : old(l.indexes[index+1])])
+//@   ensures last: index == len(l.indexes)-1 ==> result == decodeResult(l.data[old(l.indexes[index]) : len(l.data)])
+//@
+//@ func (LazySlice).Get
+//@   props C07
+//@   arith int
+//@   requires wf: wfIndex(l.indexes, l.data)
+//@   modifies *
+//@   ensures notfound: (index < 0 || index >= len(l.indexes)) ==> result1 == db.ErrKeyNotFound
